@@ -12,7 +12,7 @@ Import ListNotations. Open Scope Z_scope."""
 MUST_REJECT = {
     "variant_under_sig": "C01", "omit_sig": "C01", "resp_len": "C01", "resp_len_exploit": "C01", "identity": "C01",
     "random_e2": "C01", "wrong_secret": "C01", "challenge_arbitrary": "C01", "other_issuer_sig": "C01",
-    "subst_disclosed_everywhere": "C01", "forged_missing_entry": "C01", "swap_disclosed_everywhere": "C02",
+    "subst_disclosed_everywhere": "C01", "forged_missing_entry": "C01", "swap_disclosed_everywhere": "C02", "false_zero_disclosed": "C02",
     "false_reported_subst": "C02", "false_reported_type": "C02", "false_reported_omit": "C02", "false_reported_extra": "C02",
     "false_reported_unknown_label": "C02", "false_reported_swap": "C02", "disc_reverse": "C02", "disc_dup": "C02",
     "disc_pad_oob_first": "C02", "disc_pad_oob_last": "C02", "disc_withhold": "C02", "reported_missing_entry": "C02",
